@@ -35,7 +35,7 @@ MINK = {"ub": 3, "lb": 2, "lenge": 2}  # position of the numeric component that 
 
 def paths_of(f: tuple):
     k = f[0]
-    if k in ("nn", "none", "desc", "reg", "known", "rulekey", "falsy", "isstr"):
+    if k in ("nn", "none", "desc", "listed", "reg", "known", "rulekey", "falsy", "isstr"):
         return (f[1],)
     if k in ("ub",):
         return (f[1], f[2])
@@ -47,6 +47,10 @@ def paths_of(f: tuple):
         return (f[1],)
     if k in ("parses", "conv"):
         return (f[2],)
+    if k == "elem":
+        return (f[1],)
+    if k == "elemall":
+        return (f[1],)
     if k == "imp":
         return (f[1],) + paths_of(f[2])
     return tuple(x for x in f[1:] if isinstance(x, str))
@@ -103,6 +107,15 @@ def meet(a: State, b: State) -> State:
         if key in nb:
             out.add(key + (min(va, nb[key]),))
     # implication facts survive a branch on which the variable is falsy
+    # element facts of a local list of tuples: an empty list satisfies all of them
+    ea = {f[1] for f in a if f[0] == "elemall"}
+    eb = {f[1] for f in b if f[0] == "elemall"}
+    for f in a:
+        if f[0] == "elem" and f[1] in eb:
+            out.add(f)
+    for f in b:
+        if f[0] == "elem" and f[1] in ea:
+            out.add(f)
     fa = {f[1] for f in a if f[0] == "falsy"}
     fb = {f[1] for f in b if f[0] == "falsy"}
     for f in a:
@@ -122,7 +135,8 @@ def best(st: State, kind: str, *key) -> Optional[int]:
 
 
 def add(st: State, *facts) -> State:
-    return st | frozenset(facts)
+    extra = [("listed", f[1]) for f in facts if f and f[0] == "desc"]
+    return st | frozenset(facts) | frozenset(extra)
 
 
 def has(st: State, f: tuple) -> bool:
